@@ -222,11 +222,11 @@ def attach(tree, kf_active):
         else:
             body.append('#![allow(dead_code, unused_imports, unused_variables)]\nuse super::*;\n'
                         + ('use crate::verif_rt::*;\n' if crate == 'lib' else 'use emulator_8086_lib::verif_rt::*;\n'))
-        common = point + '_aa_common'
-        has_common = any(st == common for st, _ in by_point.get(point, []))
+        # library modules <point>_a?_*: imported into every module that sorts after them
+        libs = [st for st, _ in by_point.get(point, []) if re.match(r'^%s_a[a-z]_' % point, st)]
         for stem, f in by_point.get(point, []):
-            extra = '    use super::%s::*;\n' % common if has_common and stem != common else ''
-            body.append('pub mod %s {\n    #![allow(dead_code, unused_imports, unused_variables, unused_mut, non_upper_case_globals)]\n    use super::*;\n%s    include!(%s);\n}\n' % (stem, extra, json.dumps(f)))
+            extra = ''.join('    use super::%s::*;\n' % l for l in libs if l < stem)
+            body.append('#[macro_use]\npub mod %s {\n    #![allow(dead_code, unused_imports, unused_variables, unused_mut, non_upper_case_globals, unused_macros)]\n    use super::*;\n%s    include!(%s);\n}\n' % (stem, extra, json.dumps(f)))
             table_entries.append((crate, '%s::%s::TABLE' % (modpath, stem)))
             info['harness_files'][stem] = table_names(f)
         modfile = os.path.join(os.path.dirname(target), modname + '.rs')
